@@ -392,3 +392,17 @@ def c03_snap(detector) -> None:
         "scene": detector.scene.data.copy(deep=True) if hasattr(detector.scene.data, "copy") else None,
         "data": detector.data.copy(deep=True),
     })
+
+
+def c18_snapshot(detector, tag: str = "") -> None:
+    """C18: record copies of the 2-D data containers as the running detector holds them now
+    (None = uninitialised), for the harness to compare with a stored detector."""
+    snap = {}
+    for name in ("photon", "pixel", "signal", "image", "phase"):
+        cont = getattr(detector, "_" + name, None)
+        if cont is None:
+            continue
+        arr = getattr(cont, "_array", None)
+        snap[name] = None if arr is None else np.array(arr, copy=True)
+    snap["charge"] = np.array(detector.charge.array, copy=True)
+    LOG.append(("c18", str(tag), snap))
